@@ -4,7 +4,8 @@
    The model (Pbf/Model.v) is a hand transcription of /repo/osmpbf/decode_data.go at
    message-tree level, tied to the implementation by correspondence (harness/cmd/c08). *)
 From Coq Require Import ZArith List Bool.
-From Verif Require Import Base.Int64 Pbf.Tree Pbf.Model Pbf.Spec Pbf.CheckLib Pbf.ProofsIndep Pbf.ProofsFilter Pbf.ProofsDecode Pbf.ProofsDense Pbf.ProofsAll Pbf.Arena Pbf.ProofsArena Pbf.ProofsFile C01.Compose.
+From Verif Require Import Base.Int64 Pbf.Tree Pbf.Model Pbf.Spec Pbf.CheckLib Pbf.ProofsIndep Pbf.ProofsFilter Pbf.ProofsDecode Pbf.ProofsDense Pbf.ProofsAll Pbf.Arena Pbf.ProofsArena Pbf.ProofsFile Pbf.GenOk C01.Compose.
+From VerifGen Require GenPbfCode.
 Import ListNotations.
 Open Scope Z_scope.
 
@@ -90,6 +91,24 @@ Theorem C08_returned_objects_stable_partial : forall c p ids a a',
   (exists news, a_q a' = a_q a ++ news) /\ view (a_ar a') (a_q a) = view (a_ar a) (a_q a) /\ Inv a'.
 Proof. exact returned_objects_stable. Qed.
 Print Assumptions C08_returned_objects_stable_partial.
+
+(* 5a. (wave 5) what is established for way / relation slices short of a heap proof - still _partial:
+       (i) the working way / relation handed to scanWays / scanRelations is the zero value at every
+       iteration of the group loop, for every tree and configuration (so len(way.Nodes) == 0 at entry:
+       the node array is MADE in the call that fills it); (ii) tied by translation on every run
+       (GenOk.decoder_slice_discipline_matches_source): the set of make / append / re-slice
+       operations of decode_data.go is exactly: make per scan call for way Tags/Nodes and relation
+       Tags/Members, append only to dec.q and to n.Tags of dense nodes (section 5), re-slicing only
+       x[:0] on the reject paths.  A heap semantics of scanWays / scanRelations with these facts as
+       lemmas (arrays reachable from dec.q never written) is the missing step. *)
+Theorem C08_working_way_and_relation_fresh : forall c m s s',
+  g_way s = way0 -> g_rel s = rel0 -> group_loop c m s = Ok s' -> g_way s' = way0 /\ g_rel s' = rel0.
+Proof. exact group_loop_fresh. Qed.
+Print Assumptions C08_working_way_and_relation_fresh.
+
+Theorem C08_slice_discipline_matches_source : VerifGen.GenPbfCode.slice_ops = Pbf.GenOk.expected_slice_ops.
+Proof. exact Pbf.GenOk.decoder_slice_discipline_matches_source. Qed.
+Print Assumptions C08_slice_discipline_matches_source.
 
 (* the heap run refines the pure model of Pbf/Model.v: same loop result, and dec.q read through
    the heap is the pure dec.q *)
